@@ -88,29 +88,36 @@ def snap(x, _memo=None, _depth=0):
     return ("opaque", t.__module__, t.__qualname__, _opaque(x))
 
 
-def vsnap(x):
+def vsnap(x, _path=()):
     """Value snapshot: like ``snap`` but without identity numbers -- type-exact structural
-    equality of JSON-like values (used for 'type-exactly equal' comparisons)."""
+    equality of JSON-like values (used for 'type-exactly equal' comparisons).  A container met
+    again on the path from the root (a cyclic value) is described by how many levels up it sits."""
     t = type(x)
     if t in _ATOM:
         return (t.__name__, x)
-    if t is list or t is tuple:
-        return (t.__name__,) + tuple(vsnap(i) for i in x)
-    if t is dict:
-        return ("dict",) + tuple((vsnap(k), vsnap(v)) for k, v in x.items())
     if isinstance(x, type):
         return ("type", x.__qualname__)
     if isinstance(x, enum.Enum):
         return ("enum", type(x).__name__, x.name)
-    if isinstance(x, dict):
-        return ("map", t.__name__) + tuple((vsnap(k), vsnap(v)) for k, v in x.items())
-    if isinstance(x, (list, tuple)):
-        return ("seq", t.__name__) + tuple(vsnap(i) for i in x)
     if isinstance(x, (types.FunctionType, types.BuiltinFunctionType, types.MethodType)):
         return ("func", getattr(x, "__qualname__", repr(x)))
+    oid = id(x)
+    if oid in _path:
+        return ("cycle", len(_path) - _path.index(oid))
+    if len(_path) > 200:
+        return ("deep", t.__name__)
+    p = _path + (oid,)
+    if t is list or t is tuple:
+        return (t.__name__,) + tuple(vsnap(i, p) for i in x)
+    if t is dict:
+        return ("dict",) + tuple((vsnap(k, p), vsnap(v, p)) for k, v in x.items())
+    if isinstance(x, dict):
+        return ("map", t.__name__) + tuple((vsnap(k, p), vsnap(v, p)) for k, v in x.items())
+    if isinstance(x, (list, tuple)):
+        return ("seq", t.__name__) + tuple(vsnap(i, p) for i in x)
     d = attrs_of(x)
     if d is not None:
-        return ("obj", t.__qualname__) + tuple((k, vsnap(v)) for k, v in sorted(d.items()))
+        return ("obj", t.__qualname__) + tuple((k, vsnap(v, p)) for k, v in sorted(d.items()))
     return ("opaque", t.__qualname__, _opaque(x))
 
 
